@@ -3,8 +3,9 @@ from props import job
 PROP = dict(
     level="exploration",
     technique="property-based (rapid): exact-integer reference for the fee schedule; "
-              "validity predicate on every transaction the real TxPublisher hands to a stub wallet",
-    rule=("Three generators. (1) FeeFunction: (relay fee, ceiling incl. below relay, conf target 0..50000 "
+              "validity predicate on every transaction the real TxPublisher hands to a stub wallet; "
+              "model-based state machine around the real UtxoSweeper + TxPublisher + BudgetAggregator",
+    rule=("Four generators. (1) FeeFunction: (relay fee, ceiling incl. below relay, conf target 0..50000 "
           "biased to 0..12 and 1000..1012, estimator {fixed|slope|error|below relay|above ceiling|mixed}, "
           "starting-rate option) then a drawn walk of 1..60 Increment / IncreaseFeeRate(ct) steps "
           "(one block, skips of 2..1200 heights, jump to <=3 remaining, repeated and out-of-order targets). "
@@ -22,6 +23,18 @@ PROP = dict(
           "UtxoSweeper.sweep builds it -> the same publisher walk; failed sets are re-offered once with the "
           "publisher-reported starting rate, some inputs dropped, and re-clustered. Non-trivial = a publication "
           "from a multi-input set, a set with a wallet top-up, or after an RBF rejection. "
+          "(4) Sweeper: a drawn sequence of 6..28 actions on one real UtxoSweeper wired to the real TxPublisher and "
+          "BudgetAggregator (stub wallet / estimator / notifier / store; handlers of the collector loop called "
+          "synchronously, block delivered to the sweeper first, then to the publisher): SweepInput of a new input "
+          "(14 kinds, value, budget class, deadline none/shared/near/past, immediate, starting rate incl. above the "
+          "maximum), the same input offered again with other parameters, UpdateParams, block beat (+1, skips, jump to "
+          "a deadline, leaps; publisher results relayed before or after the publisher sees the block), confirmation "
+          "of the latest or an older accepted transaction, third-party spend of 1..2 inputs (sweeper notified at once "
+          "or one block late), new mempool answer plans (answers are a function of the txid). MaxFeeRate 2..10000 "
+          "sat/vb, MaxInputsPerTx {100,2,3,5}, NoDeadlineConfTarget {1008,144,6,2,1}, 0..3 wallet utxos. "
+          "Non-trivial = at least one accepted publication and at least one of: an input carried into a second "
+          "request (re-grouping), a replacement at a later block, an unknown spend handled, an own transaction "
+          "confirmed. "
           "Distinct = distinct fingerprint of the generated parameters."),
     assumptions=[
         "fee rates are measured against the BIP-141 upper-bound weight (per-witness-type bounds published by package input, one change output of the delivery script), which is how lnd defines the rate of a sweep; the serialized transaction can be lighter (shorter signatures, no change output)",
@@ -30,6 +43,9 @@ PROP = dict(
         "no AuxSweeper (no extra outputs / extra budget), no unconfirmed-parent (CPFP) inputs, signatures are fixed-size dummies (witness content is not validated, only its presence)",
         "required outputs handed directly to the publisher are not dust (the aggregator filters them; that filter is checked in part 3)",
         "known findings C18:start-above-ceiling and C18:budget-rate-rounded-up are excluded by construction while listed as known",
+        "sweeper part: the collector goroutine is not started; the harness calls the handlers its select loop calls (handleNewInput / handleUpdateReq / handleInputSpent / handleBumpEvent / beat body) followed by updateSweeperInputs, reading spend details and bump results from the sweeper's own channels (monitorSpend and monitorFeeBumpResult goroutines are the real ones); a block reaches the sweeper before the publisher (server.registerBlockConsumers order)",
+        "sweeper part: the per-input clauses that compare two requests (carried fee rate, no input in two live requests) hold for inputs whose parameters the caller did not replace in between (re-offer, UpdateParams) - replacing them is documented to overwrite the carried starting rate, and UpdateParams deliberately creates a second, competing request; a carried rate is capped by the new set's ceiling min(budget/size, max rate); a set that fails before its first transaction with ErrZeroFeeRateDelta/ErrTxNoOutput reports rate 0 and thereby resets the carried rate (labelled, not asserted)",
+        "sweeper part: whether the confirmation of one of the node's own transactions is reported to the caller as success or as ErrRemoteSpend is not asserted (the sweeper store loses replacements after a refused publish, see notes O2); a third party's transaction must be reported as an error; no exclusive groups, no mempool lookup (neutrino-style decideRBFInfo), no AuxSweeper",
     ],
     jobs=dict(
         quick=[
@@ -37,12 +53,14 @@ PROP = dict(
             job("sweep", "^TestVerifC18FeeFunction$", ["TestVerifC18FeeFunction"], 40000, shards=2),
             job("sweep", "^TestVerifC18Publisher$", ["TestVerifC18Publisher"], 12000, shards=4),
             job("sweep", "^TestVerifC18Aggregator$", ["TestVerifC18Aggregator"], 8000, shards=4),
+            job("sweep", "^TestVerifC18Sweeper$", ["TestVerifC18Sweeper"], 4000, shards=4),
         ],
         thorough=[
             job("sweep", "^TestVerifC18RefWeight$", ["TestVerifC18RefWeight"], 1, shards=1),
             job("sweep", "^TestVerifC18FeeFunction$", ["TestVerifC18FeeFunction"], 240000, shards=4, timeout=1500),
             job("sweep", "^TestVerifC18Publisher$", ["TestVerifC18Publisher"], 60000, shards=6, timeout=1500),
             job("sweep", "^TestVerifC18Aggregator$", ["TestVerifC18Aggregator"], 36000, shards=6, timeout=1500),
+            job("sweep", "^TestVerifC18Sweeper$", ["TestVerifC18Sweeper"], 30000, shards=6, timeout=1500),
         ],
     ),
 )
